@@ -743,6 +743,8 @@ def rule_zero_defers(ctx):
     r = RuleResult("CW-ZERO-DEFERS", ["C01", "C04"],
                    "a strong decrement hands off exactly one destruction attempt iff it observed strong == amount")
     nsites = set()
+    decided = set()
+    undecided_loc = {}
     fns = sorted({a["fn"] for a in ctx.scan_accesses() if a["op"] != "load"} | {DEC_STRONG, DGN})
     for f in fns:
         r.functions.add(f)
@@ -772,6 +774,10 @@ def rule_zero_defers(ctx):
                             hit = False
                 objroot = ptr_root(s["obj"])
                 hs = [h for h in handoffs(ctx, p, s["idx"]) if h[1] == objroot]
+                if hit is not None:
+                    decided.add((f, s["event"].bb))
+                else:
+                    undecided_loc[(f, s["event"].bb)] = s["event"].loc()
                 if p.exit[0] == "retry" and hit is None:
                     # loop back edge taken before the decision (for-loop over children): judged on
                     # the continuation paths - unless an attempt was already handed off
@@ -798,6 +804,13 @@ def rule_zero_defers(ctx):
                     else:
                         what = "a destruction attempt is handed off although the count did not hit zero"
                     r.violate(f, "handoff", what, s["event"].loc())
+    # a site that every path leaves by a loop back edge without ever deciding is not "judged on the continuation": nothing
+    # decides it at all (the test was removed)
+    for key in sorted(nsites - decided):
+        if key in undecided_loc:
+            r.instance("%s: the decrement is followed by a zero test on some path" % key[0].split("::")[-1], False)
+            r.violate(key[0], "never-decided", "no path decides whether this strong decrement hit zero: a child whose count "
+                      "reaches zero is neither destructed nor handed on (it is never destructed)", undecided_loc[key])
     r.require(len(nsites), 2, "strong-decrementing sites")
     return r
 
@@ -1201,7 +1214,7 @@ def rule_weak_protocol(ctx):
             s = sites[0]
             ok = (len(sites) == 1 and s["op"].startswith("compare_exchange")
                   and const_of(s["sets"].get("weaked", ("c", None, ""))) == 1
-                  and s["delta"]["weak"][1] == ("arg", 2, "count"))
+                  and s["delta"]["weak"][1] == ("arg", 2, "count") and s["delta"]["weak"][0] > 0)
             r.instance("increment_weak: first share sets WEAKED in the same CAS", ok)
             if not ok:
                 r.violate(f, "first", "the first weak share must be added by the CAS that sets WEAKED", s["event"].loc())
@@ -1212,9 +1225,10 @@ def rule_weak_protocol(ctx):
             for q in zero:
                 if const_of(q["rhs"]) == 0:
                     z = q["rel"] == "=="
-            extra = sum(const_of(x["delta"]["weak"][1]) or 0 for x in sites[1:])
-            ok = _uncast(s["delta"]["weak"][1]) == ("arg", 2, "count") and z is not None and extra == (1 if z else 0) \
-                and len(sites) == (2 if z else 1)
+            # (signed: a fetch_sub where the token is due takes a share instead of adding one)
+            extra = sum(x["delta"]["weak"][0] * (const_of(x["delta"]["weak"][1]) or 0) for x in sites[1:])
+            ok = _uncast(s["delta"]["weak"][1]) == ("arg", 2, "count") and s["delta"]["weak"][0] > 0 and z is not None and \
+                extra == (1 if z else 0) and len(sites) == (2 if z else 1)
             r.instance("increment_weak: weaked, from_zero=%s -> +count%s" % (z, "+1" if extra else ""), ok)
             if not ok:
                 r.violate(f, "token", "from zero the weak increment must add count+1 (token for the pending try_dealloc), "
